@@ -18,6 +18,9 @@ def add_indefinite_article(phrase):
     Returns:
         str: Either "an" or "a".
     """
+    if not phrase:
+        # Nothing to choose an article for (e.g., an exception class without a name)
+        return "a "+phrase
     # Note: Must cast to string because it could be a SandboxResult
     if str(phrase[0]) in "aeiou":
         return "an "+phrase
